@@ -40,6 +40,7 @@ class RefSaslServer(DumbPeer):
         self.hello = hello
         self.guid = guid
         self.external_needs_data = external_needs_data
+        self.messy_keyring = False
         self.state = 'auth'
         self.mech = None
         self.first = True
@@ -136,7 +137,15 @@ class RefSaslServer(DumbPeer):
                 self.cookie = hexs(self.urandom(24))
                 ctx = b'org_sim_refserver'
                 with open(os.path.join(self.keyring, ctx.decode()), 'wb') as f:
+                    # a keyring file as found in the wild: other cookies, a blank line and a
+                    # truncated line before the entry the challenge refers to
+                    if self.messy_keyring:
+                        f.write(b'3 1699999990 ' + hexs(b'o' * 24) + b'\n')
+                        f.write(b'\n')
+                        f.write(b'5 1699999995\n')
                     f.write(b'7 1700000000 ' + self.cookie + b'\n')
+                    if self.messy_keyring:
+                        f.write(b'9 1700000005 ' + hexs(b'n' * 24) + b'\n')
                 self.challenge = hexs(self.urandom(16))
                 self.state = 'data'
                 return self.w(b'DATA ' + hexs(ctx + b' 7 ' + self.challenge))
